@@ -29,8 +29,8 @@ TRUSTED = [
 ASSUMPTIONS = ["numerary / beartype as installed decide what the type-checker rejects"]
 EXPLANATION = "theorems C19_asInt_iff, C19_count, C19_repeat, C19_parity, C19_position(+_float), C19_within, C19_both_limits, C19_roll_outcome, C19_limit_int/_fractional/_nonfinite"
 
-ARGS = ["i:2", "i:0", "i:1", "i:-1", "i:-3", "i:7", "b:1", "b:0", "n:2", "n:-1", "f:2.0", "f:0.0", "f:2.5", "f:-1.0", "f:0.5", "f:0.25", "f:nan", "f:inf", "f:-inf", "q:2/1", "q:5/2", "q:1/3", "q:-1/1", "q:0/1", "s:a", "x:None"]
-ENTRIES = ["count", "repeat_h", "repeat_rh", "repeat_p", "repeat_r", "ostat_n", "parity", "parity_fn", "pos_h", "pos_rwc", "pos_getitem", "limit_explode", "limit_foreach", "within", "both", "rolloutcome"]
+ARGS = ["f:1.0", "q:1/1", "q:3/2", "f:1.5", "q:999/1000", "i:2", "i:0", "i:1", "i:-1", "i:-3", "i:7", "b:1", "b:0", "n:2", "n:-1", "f:2.0", "f:0.0", "f:2.5", "f:-1.0", "f:0.5", "f:0.25", "f:nan", "f:inf", "f:-inf", "q:2/1", "q:5/2", "q:1/3", "q:-1/1", "q:0/1", "s:a", "x:None"]
+ENTRIES = ["count", "count_dup", "count_acc", "repeat_h", "repeat_rh", "repeat_p", "repeat_r", "ostat_n", "parity", "parity_fn", "pos_h", "pos_rwc", "pos_getitem", "limit_explode", "limit_foreach", "within", "both", "rolloutcome"]
 
 
 def dec_arg(s):
@@ -112,6 +112,11 @@ def _evaluate(case):
         try:
             if e == "count":
                 out = as_int_result(lambda a: H({1: a, 2: 1}), arg)
+            elif e == "count_dup":
+                # the count of ONE entry is judged, not the accumulated count of its outcome
+                out = as_int_result(lambda a: H([(1, 5), (1, a), (2, 1)]), arg)
+            elif e == "count_acc":
+                out = as_int_result(lambda a: H({1: 5, 2: 1}).accumulate([(1, a)]), arg)
             elif e == "repeat_h":
                 out = as_int_result(lambda a: h6 @ a, arg)
             elif e == "repeat_rh":
@@ -221,7 +226,7 @@ def impl(case):
 
 def model(case):
     e = case["entry"]
-    if e == "count":
+    if e in ("count", "count_dup", "count_acc"):
         return " ".join(["GUARD", "0"] + arg_tokens(case["arg"]))
     if e in ("repeat_h", "repeat_rh", "repeat_p", "repeat_r", "ostat_n"):
         return " ".join(["GUARD", "1"] + arg_tokens(case["arg"]))
@@ -279,7 +284,7 @@ def generate(rnd, tier, scale):
                 arg = "f:2.5"
             if e == "parity" and (arg in ("f:nan",)):
                 arg = "q:5/2"
-            if e in ("repeat_h", "repeat_rh", "repeat_p", "repeat_r", "ostat_n", "count") and arg == "i:7":
+            if e in ("repeat_h", "repeat_rh", "repeat_p", "repeat_r", "ostat_n", "count", "count_dup", "count_acc") and arg == "i:7":
                 arg = "i:3"
             if e == "ostat_n" and arg in ("i:0", "b:0", "f:0.0", "q:0/1"):
                 arg = "i:2"
